@@ -208,6 +208,13 @@ def place_chops(rs: Stream, geo: Dict[str, Any], opts: Dict[str, Any]) -> Dict[s
                     # the same physical grading, expressed in this member's own sense
                     sec = invert_chop(sec) if same else sec
                 chops.append({"block": refblocks[bi].name, "axis": a, "sections": [sec]})
+    # clause (e): a chop that cannot be realised (first cell longer than the edge it is placed on)
+    if category == "ok" and chops and rs.chance(opts.get("p_infeasible", 0.0)):
+        ch = rs.pick(chops)
+        bi = [b.name for b in refblocks].index(ch["block"])
+        lmax = max(_edge_len(geo["points"], *refblocks[bi].edge(ch["axis"], k)) for k in range(4))
+        ch["sections"] = [{"count": rs.randint(2, 5), "start_size": round(lmax * rs.uniform(1.5, 3.0), 6)}]
+        meta["infeasible"] = 1
     geo = dict(geo)
     geo["chops"] = chops
     geo["meta"] = meta
@@ -450,6 +457,12 @@ def make_program(geo: Dict[str, Any], cfg_seed: int, identity: bool = False) -> 
         ops.append({"op": "add", "target": nme})
     ops.append({"op": "assemble"})
     ops.append({"op": "write", "path": DICT_PATH, "debug": VTK_PATH})
+    rewrite = geo.get("rewrite")
+    if rewrite:
+        # the same assembled mesh is written again after some vertices were moved
+        for mv in rewrite:
+            ops.append({"op": "move_vertex", "index": mv["index"], "d": mv["d"]})
+        ops.append({"op": "write", "path": DICT_PATH + ".second"})
     return {"points": geo["points"], "ops": ops, "meta": dict(geo.get("meta", {}), cfg_seed=cfg_seed)}
 
 
@@ -519,6 +532,7 @@ class RunResult:
         self.log_digest = ""
         self.block_names: List[str] = []
         self.live: Optional[Dict[str, Any]] = None  # snapshot of counts from live objects
+        self.writes: List[Tuple[str, Optional[Dict[str, Any]]]] = []  # (dictionary text, live wire counts) after every successful write
         self.snapshot: Optional[List[Tuple[str, List[List[float]], Dict[int, List[Dict[str, Any]]]]]] = None
 
 
@@ -585,6 +599,12 @@ def run_once(program: Dict[str, Any], sched: Dict[str, Any], pre_files: Optional
             res.snapshot = snapshot_ops(it)
 
     def after(i, op):
+        if op["op"] == "write":
+            try:
+                live_now = snapshot_live(it.mesh)
+            except Exception as e:  # observation only
+                live_now = {"error": repr(e)}
+            res.writes.append((world.fs.files.get(op["path"]), live_now))
         if op["op"] == "assemble":
             names = [n for n in it.added]
             if res.snapshot is not None:
@@ -781,7 +801,10 @@ def oracle_outcome(program, verdict: models.FamilyVerdict, res: RunResult, pre_f
     if res.outcome == "livelock":
         out.append(Violation("C02", "livelock", res.exc_msg, key="livelock"))
         return out
-    if klass == "ok":
+    if meta.get("infeasible"):
+        if not res.outcome.startswith("exc:"):
+            out.append(Violation("C02", "unrealisable-chop-accepted", f"a first cell longer than its edge was asked for, outcome is {res.outcome}"))
+    elif klass == "ok":
         if res.outcome != "ok":
             if verdict.unknown_count_multi and res.outcome == "exc:InconsistentGradingsError":
                 return out
